@@ -471,7 +471,7 @@ pub fn run(tier: Tier) -> CheckResult {
     }
     // truncations + isolation (in process)
     let valid = ("src/valid.rs".to_string(), format!("{}#[derive(Serialize, Deserialize)]\npub struct Solid {{ pub a: i32 }}\n#[tauri::command]\npub fn solid(s: Solid) -> Solid {{ s }}\n", gen::PRELUDE));
-    let reference: BTreeMap<String, String> = run_lib_default(&Project { files: vec![valid.clone()] }, &Cfg::mode(false)).files.iter().map(|(k, v)| (k.clone(), strip_timestamp(v))).collect();
+    let reference: BTreeMap<String, String> = run_lib_default(&Project { files: vec![valid.clone()], links: vec![] }, &Cfg::mode(false)).files.iter().map(|(k, v)| (k.clone(), strip_timestamp(v))).collect();
     let truncs = truncation_cases();
     let tres: Vec<Option<Violation>> = truncs
         .par_iter()
@@ -479,7 +479,7 @@ pub fn run(tier: Tier) -> CheckResult {
             if deadline.passed() {
                 return None;
             }
-            let p = Project { files: vec![valid.clone(), ("src/truncated.rs".into(), text.clone())] };
+            let p = Project { files: vec![valid.clone(), ("src/truncated.rs".into(), text.clone())], links: vec![] };
             let r = run_lib_default(&p, &Cfg::mode(false));
             if let LibStatus::Panic(m) = &r.status {
                 return Some(Violation::new("C15", "panic", format!("fixture truncation {}: {}", label, m), json!({"truncation": label})).field("family", "truncation").field("file", label.clone()));
